@@ -1,4 +1,5 @@
 import BSModel.Proofs.PrettyStream
+import BSModel.Proofs.PrettyTokens
 /-! # C14 — prettify() changes only whitespace and shows the nesting
 
 Property theorems only. `decodeImpl`, `step`, `indentString`, `events`, `receiverStream`, `prettifyImpl`, `indentOf`,
@@ -107,6 +108,7 @@ theorem prettify_refines (u : PStr) (hidden : Bool) (t : Node) (h : distinct t =
   simpa [prettifyImpl] using this
 
 example : prettifyImpl (ofS " ") true demoSoup = ofS "t\n<a>\n</a>\n" := by decide
+example : distinctL demoSoup.kids = true ∧ distinct demoSoup = true := by decide
 example : levelOf .true = some 0 ∧ levelOf .none = none ∧ levelOf (.int (-1)) = some (-1) := by decide
 
 /-! ## 2. every tag and every non-blank string on its own line, indented by unit × depth -/
@@ -151,6 +153,7 @@ theorem ends_with_newline_contents (u : PStr) (l : Int) (ks : List Node) (hd : d
   exact EndsNl.getLast (h ▸ layout_endsNl u l _) hne
 
 example : decodeImpl (ofS " ") (some 0) (eventsL [.str (ofS "  ")]) = [] := by decide
+example : decodeImpl (ofS " ") (some 0) (events demo) ≠ [] := by decide
 /-- the hypothesis `preVisible` is needed: a hidden `<pre>` leaves its contents without a final newline -/
 example : decodeImpl (ofS " ") (some 0) (events (.elem 0 [] [] true [.str (ofS "x")])) = ofS "x" := by decide
 
@@ -191,6 +194,7 @@ theorem nonws_equal_contents (u : PStr) (l : Int) (ks : List Node) (hd : distinc
   exact dropWs_prettyL u hu ks l false
 
 example : dropWs (ofS " <a>\n  x y\n") = ofS "<a>xy" := by decide
+example : (∀ c ∈ ofS " \t", isSpace c = true) ∧ (∀ c ∈ ([] : PStr), isSpace c = true) := by decide
 /-- the hypothesis on the unit is needed -/
 example : dropWs (decodeImpl (ofS "--") (some 1) (events (.void (ofS "<br/>")))) ≠
     dropWs (decodeImpl (ofS "--") none (events (.void (ofS "<br/>")))) := by decide
@@ -237,6 +241,7 @@ theorem indent_whitespace (a : IndentArg) (h : ∀ s, a ≠ .str s) : ∀ c ∈ 
   | other => simp [indent_other] at hc; rw [hc]; exact h32
 
 example : indentOf (.int 3) = ofS "   " ∧ indentOf (.int (-1)) = [] ∧ indentOf (.str (ofS "\t")) = ofS "\t" := by decide
+example : ∀ s, IndentArg.int 3 ≠ .str s := by intro s h; cases h
 
 /-- Table fact (generated from `HTMLFormatter.REGISTRY`/`XMLFormatter.REGISTRY` and the signature of `Formatter.__init__`):
     every built-in formatter, and the default of `indent=`, indents by exactly one space. -/
@@ -447,6 +452,7 @@ theorem xml_declaration_python_specific :
   decide
 
 example : ofS "idna" ∈ BS.Gen.Pretty.pythonSpecificEncodings ∧ ofS "utf-8" ∉ BS.Gen.Pretty.pythonSpecificEncodings := by decide
+example : demoXmlSoup.soupXml = some true ∧ demoRaw.soupXml = none := by decide
 
 /-- Only whitespace changes, for every receiver, entry point, level argument and eventual encoding: the output has the same
     non-whitespace code points as the plain output *for the same eventual encoding* (declaration line included). -/
@@ -505,6 +511,9 @@ theorem prettify_bytes_of_str (u vcp : PStr) (e : PStr) (r : RNode) (hx : r.soup
     simp [this, xmlDecl, hr BS.Gen.Pretty.soupDecodeDefaultEnc]
 
 example : ∀ enc, resolve ⟨enc, ofS "/"⟩ demoXmlSoup = resolve ⟨none, ofS "/"⟩ demoXmlSoup := fun _ => rfl
+example : (RNode.tag { metaInfo with attrBy := [] } []).soupXml ≠ some true ∧
+    ∀ enc, resolve ⟨enc, ofS "/"⟩ (.tag { metaInfo with attrBy := [] } []) = resolve ⟨none, ofS "/"⟩ (.tag { metaInfo with attrBy := [] } []) :=
+  ⟨by decide, fun _ => rfl⟩
 
 /-- An empty-element tag as the starting point: its tag on a line of its own — indented by the start level, newline after. -/
 theorem void_receiver (u vcp : PStr) (l : Int) (enc : Option PStr) (i : TagInfo) (hc : i.canBeEmpty = true)
@@ -521,6 +530,7 @@ theorem void_receiver (u vcp : PStr) (l : Int) (enc : Option PStr) (i : TagInfo)
 
 example : recvDecode (ofS "  ") (ofS "/") (.int 2) none false (.tag metaInfo []) = ofS "    <meta charset=\"iso-8859-1\"/>\n" := by
   decide
+example : metaInfo.canBeEmpty = true ∧ metaInfo.hidden = false ∧ metaInfo.soupXml = none := by decide
 
 /-- Line structure and final newline for every receiver at the level of the objects: a visible receiver gives its own lines, a
     hidden one (the `BeautifulSoup` object) or `decode_contents` the children's, after the declaration line if any; and the
@@ -561,5 +571,55 @@ theorem recv_line_structure (u vcp : PStr) (l : Int) (enc : Option PStr) (co : B
   exact he.getLast hne
 
 example : rPreVisible demoRaw = true ∧ rPreVisibleL demoXmlSoup.kids = true ∧ demoXmlSoup.hidden = true := by decide
+
+/-! ## 10. "re-parses to the same tree once whitespace inside text is disregarded": the token level
+
+    Full statement of the clause: `parse(prettify(t))` and `parse(decode(t))` are the same tree up to whitespace in text nodes.
+    `parse` = CPython's `html.parser` tokenizer + bs4's tree builder. The tokenizer is not modelled in this framework (C05's
+    `Reparse.lean` models the builder on tokenizer events and likewise takes the events as given), so the clause is proved up
+    to the tokenizer: the two outputs, cut into tokens where a tokenizer cuts well-formed output, are the same token sequence
+    once adjacent character data is merged and whitespace in it is disregarded. A tree builder is a function of that
+    sequence (bs4's merges `handle_data` calls until the next tag; whitespace-only data never opens or closes an element).
+    That html.parser really cuts the two texts like this — and the resulting trees — is what the harness' re-parse oracle
+    checks on the real outputs (for text pieces that are inert for the tokenizer). -/
+
+/-- Same tokens modulo whitespace in character data, for every tree of objects, unit of whitespace, level and encoding:
+    (1) `prettyToks`/`plainToks` are cuts of the real pretty / plain output of a visible receiver — every tag piece and every
+    string with a PREFIX (minus whitespace after its closing delimiter) one markup token, the rest character data;
+    (2) after merging adjacent character data, removing whitespace from it and dropping empty runs, the two token sequences
+    are equal. `specialsOk`: a PREFIX starts with a non-whitespace character (`specials_ok_table`). -/
+theorem pretty_same_tokens (u vcp : PStr) (l : Int) (enc : Option PStr) (r : RNode) (hd : rdistinct r = true)
+    (hh : r.hidden = false) (hu : ∀ c ∈ u, isSpace c = true) (hok : specialsOk r = true) :
+    tagDecode u vcp (.int l) enc false r = textOf (prettyToks ⟨enc, vcp⟩ u l false r) ∧
+    tagDecode u vcp .none enc false r = textOf (plainToks ⟨enc, vcp⟩ r) ∧
+    canon (prettyToks ⟨enc, vcp⟩ u l false r) = canon (plainToks ⟨enc, vcp⟩ r) := by
+  have hdist := distinct_resolve ⟨enc, vcp⟩ r hd
+  refine ⟨?_, ?_, ?_⟩
+  · rw [prettyToks_text]
+    simp [tagDecode, hh, receiverStream, levelOf, pretty_refines u l _ hdist]
+  · rw [plainToks_text]
+    simp [tagDecode, hh, receiverStream, levelOf, plain_refines]
+  · have := eqv_toks ⟨enc, vcp⟩ u hu r l false [] [] hok (Eqv.refl []) []
+    simpa [canon] using this
+
+example : specialsOk demoRaw = true ∧ demoRaw.hidden = false := by decide
+example : canon (plainToks ⟨none, ofS "/"⟩ demoRaw) =
+    [.markup (ofS "<head>"), .markup (ofS "<meta charset=\"iso-8859-1\"/>"), .markup (ofS "<!-- c -->"), .data (ofS "t"),
+     .markup (ofS "</head>")] ∧
+    prettyToks ⟨none, ofS "/"⟩ (ofS " ") 0 false demoRaw =
+    [.data [], .markup (ofS "<head>"), .data [10], .data (ofS " "), .markup (ofS "<meta charset=\"iso-8859-1\"/>"), .data [10],
+     .data (ofS " "), .markup (ofS "<!-- c -->"), .data [10], .data (ofS " t\n"), .data [], .markup (ofS "</head>"),
+     .data [10]] := by decide
+/-- a doctype's newline belongs to the character data after it -/
+example : plainToks ⟨none, []⟩ (.str (ofS "<!DOCTYPE ") (ofS ">\n") (ofS "html")) =
+    [.markup (ofS "<!DOCTYPE html>"), .data [10]] := by decide
+
+/-- Table fact over the whole generated table of string classes: every PREFIX starts with a character that is not whitespace —
+    the hypothesis `specialsOk` of `pretty_same_tokens` holds for every string of every bs4 class, whatever its body. -/
+theorem specials_ok_table : ∀ e ∈ BS.Gen.Pretty.stringAffixes, ∀ body, specialsOk (.str e.2.1 e.2.2.1 body) = true := by
+  have hall : BS.Gen.Pretty.stringAffixes.all (fun e => specialsOk (.str e.2.1 e.2.2.1 [])) = true := by decide +kernel
+  intro e he body
+  have := List.all_eq_true.mp hall e he
+  cases hp : e.2.1 <;> simp_all [specialsOk]
 
 end BS.Props.C14
